@@ -10,6 +10,9 @@ pub fn lark_corpus() -> Vec<GCase> {
         if text.contains("<[^") || text.contains("<[*]>") {
             g = g.tag("tokrange_eos");
         }
+        if ["special_tok", "special_alt", "tok_range", "tok_any"].contains(&name) {
+            g = g.tag("special_token_ref");
+        }
         v.push(g)
     };
     l("cache_ab", "start: \"a\" X \"b\" | \"c\" X \"d\"\nX: /x+/\n");
